@@ -21,7 +21,7 @@ m("C08","init-boundary","x/rns/keeper/msg_server_init.go",
 m("C08","delist-drop-current-owner","x/rns/keeper/msg_server_delist.go",
   'if name.Value != sale.Owner {','if name.Name != sale.Name {',"C08/R1","rns.MsgDelist:listing-by-current-owner")
 m("C08","addrecord-write-before-check","x/rns/keeper/msg_server_add_record.go",
-  'if msg.Creator != name.Value {','if msg.Creator != name.Value && len(msg.Record) > 64 {',"C08/R1","rns.MsgAddRecord:owner-consent")
+  'if msg.Creator != whois.Value {','if msg.Creator != whois.Value && len(msg.Record) > 64 {',"C08/R1","rns.MsgAddRecord:owner-consent")
 
 # ---- C16
 m("C16","register-no-base-for-expired","x/rns/keeper/msg_server_register.go",
@@ -79,6 +79,31 @@ m("C10","changeowner-delete-other-key","x/filetree/keeper/msg_server_change_owne
   'k.RemoveFiles(ctx, msg.Address, currentOwner)','k.RemoveFiles(ctx, msg.Address, msg.NewOwner)',"C10/R3","filetree.MsgChangeOwner:delete-key")
 m("C10","root-owner-from-viewers","x/filetree/keeper/msg_server_make_root.go",
   'h1.Write([]byte(creator))','h1.Write([]byte(viewers))',"C10/R4","root-owner")
+
+# ---- C11
+m("C11","getsigners-from-foraddress","x/storage/types/message_buy_storage.go",
+  'creator, err := sdk.AccAddressFromBech32(msg.Creator)\n\tif err != nil {\n\t\tpanic(err)\n\t}\n\treturn []sdk.AccAddress{creator}',
+  'creator, err := sdk.AccAddressFromBech32(msg.ForAddress)\n\tif err != nil {\n\t\tpanic(err)\n\t}\n\treturn []sdk.AccAddress{creator}',"C11/R1","storage.MsgBuyStorage:signer")
+m("C11","getsigners-two-signers","x/rns/types/message_transfer.go",
+  'return []sdk.AccAddress{creator}','return []sdk.AccAddress{creator, creator}',"C11/R1","rns.MsgTransfer:signer")
+m("C11","provider-ip-keyed-by-ip","x/storage/keeper/msg_server_set_provider_ip.go",
+  'provider, found := k.GetProviders(ctx, msg.Creator)','provider, found := k.GetProviders(ctx, msg.Ip)',"C11/R3","storage.MsgSetProviderIP:own-key")
+m("C11","wasm-drop-creator-check","wasmbinding/message_plugin.go",
+  'if postFile.Creator != contractAddr.String() {','if postFile.Creator == "" {',"C11/R4","creator-is-contract")
+m("C11","wasm-drop-validatebasic","wasmbinding/message_plugin.go",
+  'if err := postFile.ValidateBasic(); err != nil {\n\t\treturn err\n\t}','_ = postFile.ValidateBasic()',"C11/R4","validate-basic")
+m("C11","feed-update-no-owner-check","x/oracle/keeper/msg_server_feeds.go",
+  'if feed.Owner != msg.Creator {','if feed.Name != msg.Name {',"C11/R3","oracle.MsgUpdateFeed:feed-owner")
+m("C11","delete-notification-swapped-key","x/notifications/keeper/msg_server_delete_notifications.go",
+  'k.RemoveNotification(ctx, msg.Creator, msg.From, msg.Time)','k.RemoveNotification(ctx, msg.From, msg.Creator, msg.Time)',"C11/R3","notifications.MsgDeleteNotification:own-key")
+m("C11","block-for-other-address","x/notifications/keeper/msg_server_block_senders.go",
+  'Address:        msg.Creator,','Address:        toBlock,',"C11/R3","notifications.MsgBlockSenders:own-key")
+m("C11","ante-sigverify-before-setpubkey","app/ante.go",
+  '\t\tante.NewSetPubKeyDecorator(options.AccountKeeper),\n','',"C11/R5","ante:order")
+m("C11","storage-delete-file-of-other","x/storage/keeper/msg_server_file_delete.go",
+  'k.Keeper.RemoveFile(ctx, msg.Merkle, msg.Creator, msg.Start)','k.Keeper.RemoveFile(ctx, msg.Merkle, string(msg.Merkle), msg.Start)',"C11/R3","storage.MsgDeleteFile:own-key")
+m("C11","makeprimary-for-name","x/rns/keeper/msg_server_register.go",
+  'k.SetPrimaryName(ctx, msg.Creator, name, tld)','k.SetPrimaryName(ctx, msg.Name, name, tld)',"C11/R3","rns.MsgMakePrimary:own-key")
 
 for x in M:
     d = os.path.join(os.path.dirname(os.path.abspath(__file__)), x["property"])
